@@ -15,7 +15,7 @@ RULE = ("exhaustive: every barrier layout x every (start, goal) cell pair x conn
         "gaps, NaN cells, several barrier values), ascending/descending coordinates with steps 1, 0.1, 1/3, 2.5 and offsets, points "
         "given as cell centres or up to +-0.49 cell off-centre, snapping on/off; oracle = Dijkstra + chain validator; non-trivial = "
         "distinct (grid, start, goal, connectivity) whose shortest route is longer than the straight-line distance")
-BUDGET = {'quick': 120, 'thorough': 1200}
+BUDGET = {'quick': 240, 'thorough': 1200}
 MODES = {'quick': [('J', 13), ('I', 3)], 'thorough': [('J', 13), ('I', 3)]}
 FLOORS = {'quick': {'shortest': 20000, 'no_route_all_nan': 3000, 'detour': 1500, 'snap.nearest': 200, 'fractional_coords': 5000,
                     'offcentre_point': 200, 'modeI.pops_bounded': 300, 'blocked_endpoint_all_nan': 3000, 'two_corridor_near_tie': 25},
